@@ -262,12 +262,14 @@ func setupC13(x *Ctx) {
 				// one message may be in flight through the read pump (it passed the
 				// closed-check) while the other pump reports the error at that instant
 				discr := cause
-				// "in flight": the bytes of this message had been taken off the transport by
-				// the delivering goroutine before the end was known (its last completed read
-				// precedes the report), and nothing was read afterwards
+				// "in flight": the bytes of this message had been taken off the transport before
+				// the end was known (the last completed transport read precedes the report),
+				// and nothing was read afterwards
 				lastRead := -1
 				for _, r := range evs {
-					if r.Kind == "net-read" && r.Task == e.Task && r.Seq < e.Seq {
+					// (any goroutine: gorilla's buffered reader may have taken the bytes off
+					// the transport already while the websocket handshake was read)
+					if r.Kind == "net-read" && r.Seq < e.Seq {
 						lastRead = r.Seq
 					}
 				}
